@@ -476,22 +476,31 @@ pub fn run(ctx: &Ctx) {
           &TreeParams { min_nodes: 4, max_nodes: 4, max_decorated: 0, root_from_subset: false, shard: (0, 1) }, true);
     sweep(ctx, "suffix-collision pool, 3-subsets, <=4 nodes, undecorated", &suffix_pool(), 3,
           &TreeParams { min_nodes: 2, max_nodes: 4, max_decorated: 0, root_from_subset: false, shard: (0, 1) }, true);
+    // the three complete 2-subset sweeps of the quick tier come first in both tiers: when the wall budget
+    // of the thorough tier cuts one of its larger sweeps, everything the quick tier covers has still
+    // been covered (with both presets in the thorough tier)
+    sweep(ctx, "2-subsets, 3 nodes, <=1 decorated", &pool, 2,
+          &TreeParams { min_nodes: 3, max_nodes: 3, max_decorated: 1, root_from_subset: false, shard: (0, 1) }, true);
+    sweep(ctx, "2-subsets, <=2 nodes, <=2 decorated, root named from the subset", &pool, 2,
+          &TreeParams { min_nodes: 0, max_nodes: 2, max_decorated: 2, root_from_subset: true, shard: (0, 1) }, false);
+    sweep(ctx, "2-subsets, 4 nodes, undecorated", &pool, 2,
+          &TreeParams { min_nodes: 4, max_nodes: 4, max_decorated: 0, root_from_subset: false, shard: (0, 1) }, false);
     match ctx.tier {
         crate::ctx::Tier::Quick => {
-            sweep(ctx, "2-subsets, 3 nodes, <=1 decorated", &pool, 2,
-                  &TreeParams { min_nodes: 3, max_nodes: 3, max_decorated: 1, root_from_subset: false, shard: (0, 1) }, true);
-            sweep(ctx, "2-subsets, <=2 nodes, <=2 decorated, root named from the subset", &pool, 2,
-                  &TreeParams { min_nodes: 0, max_nodes: 2, max_decorated: 2, root_from_subset: true, shard: (0, 1) }, false);
-            sweep(ctx, "2-subsets, 4 nodes, undecorated", &pool, 2,
-                  &TreeParams { min_nodes: 4, max_nodes: 4, max_decorated: 0, root_from_subset: false, shard: (0, 1) }, false);
             chains(ctx, &pool, 5);
         }
         crate::ctx::Tier::Thorough => {
-            sweep(ctx, "2-subsets, <=4 nodes, <=2 decorated", &pool, 2,
-                  &TreeParams { min_nodes: 0, max_nodes: 4, max_decorated: 2, root_from_subset: true, shard: (0, 1) }, true);
+            chains(ctx, &pool, 7);
+            // three distinct pool names at once, smallest trees that can carry them: complete
+            sweep(ctx, "3-subsets, 3 nodes, undecorated, root named from the subset", &pool, 3,
+                  &TreeParams { min_nodes: 3, max_nodes: 3, max_decorated: 0, root_from_subset: true, shard: (0, 1) }, true);
+            sweep(ctx, "3-subsets, 4 nodes, undecorated", &pool, 3,
+                  &TreeParams { min_nodes: 4, max_nodes: 4, max_decorated: 0, root_from_subset: false, shard: (0, 1) }, false);
+            // the large spaces last: whatever the wall budget cuts is cut here
             sweep(ctx, "3-subsets, <=3 nodes, <=1 decorated", &pool, 3,
                   &TreeParams { min_nodes: 1, max_nodes: 3, max_decorated: 1, root_from_subset: false, shard: (0, 1) }, true);
-            chains(ctx, &pool, 7);
+            sweep(ctx, "2-subsets, <=4 nodes, <=2 decorated", &pool, 2,
+                  &TreeParams { min_nodes: 0, max_nodes: 4, max_decorated: 2, root_from_subset: true, shard: (0, 1) }, true);
         }
     }
     ctx.set(
